@@ -4,6 +4,7 @@ import PdfModel.Lemmas.CMapTotal
 import PdfModel.Lemmas.CMapSpell
 import PdfModel.Lemmas.CMapSpellCheck
 import PdfModel.Lemmas.FontEncoding
+import PdfModel.Generated.Lexical
 
 /-!
   C19 — "Glyph widths and Unicode maps follow the font dictionaries exactly".
@@ -328,5 +329,23 @@ example : ∀ g ∈ exGroups, g.wf = true := by decide
 example : (match cidWidths 1000 (Widths.render 0 exGroups) with
            | .ok w => [w.get 2, w.get 3, w.get 4, w.get 5, w.get 99, w.get 100, w.get 102, w.get 103, w.get 65535]
            | _ => []) = [1000, 5, 6, 1000, 1000, 7, 7, 1000, 9] := by decide +kernel
+
+end C19
+
+/-! ## Tie to the source: constants and byte classes (appended by the translator package)
+
+`Generated/Lexical.lean` is re-extracted from `pdf/src` by `./check` before this file is built. -/
+
+namespace C19
+
+/-- the largest character code of the width table and the lexical classes of the CMap reader are the ones of the source (`MAX_CID`, `is_whitespace`, `is_delimiter`) -/
+theorem constants_match_source :
+    (Widths.maxCid = Generated.maxCid) ∧
+    ((List.range 256).filter (fun n => CMap.isWs (UInt8.ofNat n)) = Generated.lexWhitespace) ∧
+    ((List.range 256).filter (fun n => CMap.isDelim (UInt8.ofNat n)) = Generated.lexDelimiters) := by
+  refine ⟨?_, ?_, ?_⟩
+  · first | decide +kernel | fail "constants_match_source (C19): the model's Widths.maxCid does not match the source (Generated.maxCid, re-extracted from pdf/src)"
+  · first | decide +kernel | fail "constants_match_source (C19): the model's CMap.isWs does not match the source (Generated.lexWhitespace, re-extracted from pdf/src)"
+  · first | decide +kernel | fail "constants_match_source (C19): the model's CMap.isDelim does not match the source (Generated.lexDelimiters, re-extracted from pdf/src)"
 
 end C19
